@@ -262,3 +262,83 @@ func StoresWithHelpers(fn *ssa.Function) []StoreInst {
 	}
 	return out
 }
+
+// CallInst is a call executed by fn: its own, or one inside a helper of its package that it calls (one or two
+// levels), with the helper's parameters bound to the arguments of the call in fn.
+type CallInst struct {
+	Call ssa.CallInstruction
+	Env  map[*ssa.Parameter]ssa.Value
+	Site *ssa.BasicBlock // block of fn where the call (or the call of the helper) stands
+	Via  ssa.CallInstruction
+}
+
+// Arg maps a helper parameter to its argument.
+func (c *CallInst) Arg(v ssa.Value) ssa.Value {
+	for i := 0; i < 3; i++ {
+		prm, ok := v.(*ssa.Parameter)
+		if !ok {
+			return v
+		}
+		a, ok := c.Env[prm]
+		if !ok {
+			return v
+		}
+		v = a
+	}
+	return v
+}
+
+// Path renders v with helper parameters replaced by the access paths of their arguments.
+func (c *CallInst) Path(v ssa.Value) string {
+	p := AccessPath(v)
+	for prm, arg := range c.Env {
+		n := prm.Name()
+		if p == n {
+			return AccessPath(arg)
+		}
+		if strings.HasPrefix(p, n+".") || strings.HasPrefix(p, n+"[") {
+			return AccessPath(arg) + p[len(n):]
+		}
+	}
+	return p
+}
+
+// CallsWithHelpers lists the calls of fn and of the unexported helpers of its package it calls.
+func CallsWithHelpers(fn *ssa.Function, depth int) []CallInst {
+	var out []CallInst
+	var walk func(f *ssa.Function, env map[*ssa.Parameter]ssa.Value, site *ssa.BasicBlock, via ssa.CallInstruction, d int)
+	walk = func(f *ssa.Function, env map[*ssa.Parameter]ssa.Value, site *ssa.BasicBlock, via ssa.CallInstruction, d int) {
+		for _, b := range f.Blocks {
+			for _, in := range b.Instrs {
+				ci, ok := in.(ssa.CallInstruction)
+				if !ok {
+					continue
+				}
+				s, v := site, via
+				if f == fn {
+					s, v = b, ci
+				}
+				out = append(out, CallInst{Call: ci, Env: env, Site: s, Via: v})
+				h := ci.Common().StaticCallee()
+				if h == nil || h.Pkg != fn.Pkg || h == fn || h == f || len(h.Blocks) == 0 || ast.IsExported(h.Name()) || d >= depth {
+					continue
+				}
+				sub := map[*ssa.Parameter]ssa.Value{}
+				for i, prm := range h.Params {
+					if i < len(ci.Common().Args) {
+						a := ci.Common().Args[i]
+						if pa, isP := a.(*ssa.Parameter); isP && env != nil {
+							if b2, ok := env[pa]; ok {
+								a = b2
+							}
+						}
+						sub[prm] = a
+					}
+				}
+				walk(h, sub, s, v, d+1)
+			}
+		}
+	}
+	walk(fn, nil, nil, nil, 0)
+	return out
+}
